@@ -164,7 +164,7 @@ def c17(c):
            dict(src='c17_protocol.cpp', build='clang', shards={'quick': 1, 'thorough': 5}, tiers=('thorough',))])
     for k in ('calls_checked', 'map_coordinate_calls', 'map_density_calls', 'density_calls_inside_integrand', 'density_calls_after_integrand',
               'zero_valued_calls', 'non_zero_calls', 'weight_requesting_calls', 'extreme_zero_coordinates', 'extreme_max_coordinates',
-              'scripted_runs', 'random_runs'):
+              'scripted_runs', 'random_runs', 'canonical_number_exactly_one'):
         c.require(k)
 
 
@@ -367,7 +367,7 @@ def c20(c):
                    "MPI runs use the in-process shim; per-rank call logs are concatenated in rank order (contiguity is C16's business)"])
 def c19(c):
     c.std([dict(src='c19_state.cpp', build='asan', shards={'quick': 5, 'thorough': 5}, extra_inc=SHIM, libs=['-pthread'])])
-    for k in ('first_states_checked', 'state_transitions_checked', 'coordinates_predicted', 'channels_predicted', 'runs_serial', 'runs_resumed', 'runs_mpi'):
+    for k in ('first_states_checked', 'state_transitions_checked', 'coordinates_predicted', 'channels_predicted', 'runs_serial', 'runs_resumed', 'runs_mpi', 'runs_mpi-resumed'):
         c.require(k)
 
 
